@@ -129,6 +129,17 @@ class KernelSim(WorldBase):
                 to = g.random() < 0.5
                 for t in (2, 1000, g.choice(THRESHOLDS)):
                     evs.append(["flat", {"dims": [M, Kk, N], "ent": ent, "ncu": t, "traced_outer": to}])
+            if False and g.random() < 0.5:
+                # convolution by projection: project_i traces, matched ranks.  DISABLED: under collection the
+                # library needs the source rank matched to the destination rank *before* the destination rank is
+                # registered (the kernel must call Metrics.matchRanks itself or tick the projection); I could not
+                # establish the intended idiom with certainty, and a wrong idiom would be a false-alarm generator.
+                W, I = g.randint(1, 3), g.randint(2, 6)
+                wv = [[r, g.choice([1, 2, 3])] for r in range(W) if g.random() < 0.8]
+                iv = [[h, g.choice([0, 1, 2, 3]) if g.random() < cfg.get("explicit", 0.0) * 2 + 0.05 else g.choice([1, 2, 3])]
+                      for h in range(I) if g.random() < 0.7]
+                for t in (2, 1000, g.choice(THRESHOLDS)):
+                    evs.append(["conv", {"W": W, "I": I, "w": wv, "i": iv, "ncu": t}])
             creg = [x[:2] + [True] for x in reg]
             for _ in range(2):
                 evs.append(["session", {"role": "consume", "flow": flow, "prefix": "c", "reg": creg,
@@ -243,6 +254,8 @@ class KernelSim(WorldBase):
                 return self.ev_pairs(ev[1])
             if kind == "flat":
                 return self.ev_flat(ev[1])
+            if kind == "conv":
+                return self.ev_conv(ev[1])
             if kind == "swaps":
                 return self.ev_swaps(ev[1])
             if self.case is None:
@@ -673,6 +686,103 @@ class KernelSim(WorldBase):
             self.V("C16", "C16.flush-independent", "flat", f"trace {bad[0]} of the flattened kernel differs between flush thresholds")
         self.probe("flattened_rank_sessions")
         return {"rows": len(exp_n)}
+
+    def ev_conv(self, a):
+        """O[q] = sum_r W[r] * I[q + r], weight stationary, input projected onto the output rank"""
+        W, I = a["W"], a["I"]
+        Q = I - W + 1
+        if Q < 1:
+            raise Skip("no output")
+        w = Tensor(rank_ids=["R"], shape=[W])
+        for r, v in a["w"]:
+            ref = w.getPayloadRef(r)
+            ref <<= v
+        i = Tensor(rank_ids=["H"], shape=[I])
+        for h, v in a["i"]:
+            ref = i.getPayloadRef(h)
+            ref <<= v
+        o = Tensor(rank_ids=["Q"], shape=[Q])
+        w_r, i_h, o_q = w.getRoot(), i.getRoot(), o.getRoot()
+        self.kexec += 1
+        self.nsess += 1
+        fs = self.fs
+        fs.reset_counters()
+        prefix = os.path.join(self.scratch, "cv")
+        exp = {}        # r -> [(h, position of h in i_h)]
+        bodies = 0
+        err = None
+        Metrics.beginCollect(prefix)
+        try:
+            Metrics.setNumCachedUses(a["ncu"])
+            for rk, ty in (("R", "iter"), ("Q", "iter"), ("Q", "populate_1"), ("Q", "populate_read_0"),
+                           ("Q", "populate_write_0"), ("H", "project_2")):
+                Metrics.trace(rk, ty)
+            for r, w_val in w_r:
+                exp[r] = []
+                for q, (o_ref, i_val) in o_q << i_h.project(lambda h: h - r, (0, Q), rank_id="Q"):
+                    bodies += 1
+                    exp[r].append((q + r, i_h.coords.index(q + r)))
+                    o_ref += w_val * i_val
+        except Exception as e:
+            err = f"{type(e).__name__}: {str(e)[:80]}"
+        try:
+            Metrics.endCollect()
+        except Exception as e:
+            err = err or f"endCollect {type(e).__name__}"
+        if self.prop != "C16":
+            return {"err": err}
+        if err:
+            self.V("C16", "C16.no-exception", "conv", f"convolution kernel raised {err}")
+            return {"err": err}
+        files = {}
+        for p in sorted(fs.written):
+            if os.path.exists(p):
+                with open(p) as fh:
+                    files[os.path.basename(p)] = fh.read()
+        text = files.get("cv-H-project_2.csv")
+        if text is None:
+            self.V("C16", "C16.header", "conv", "no file for the registered project trace")
+            return {}
+        header, rows = TR.parse(text)
+        if bodies and header is None:
+            self.V("C16", "C16.header", "conv", "project trace is empty although the projected loop ran")
+        if header is not None:
+            if header != ["R_pos", "Q_pos", "R", "Q", "fiber_pos"]:
+                self.V("C16", "C16.header", "conv", f"project trace header {header}")
+            groups = {}
+            prev = None
+            for row in rows:
+                if len(row) != 5 or not all(isinstance(x, int) for x in row):
+                    self.V("C16", "C16.row-shape", "conv", f"project trace row {row}")
+                    return {}
+                st = tuple(row[:2])
+                if prev is not None and st < prev:
+                    self.V("C16", "C16.stamp-order", "conv", f"project trace: stamp {st} follows {prev}")
+                prev = st
+                groups.setdefault(row[2], []).append((row[3], row[4]))
+            for r, want in exp.items():
+                got = groups.get(r, [])
+                if [c for c, _ in got] != [c for c, _ in want]:
+                    self.V("C16", "C16.one-row-per-access", "conv",
+                           f"project trace under r={r}: rows for source coordinates {[c for c, _ in got]}, the projection "
+                           f"delivered {[c for c, _ in want]}")
+                elif got != want:
+                    stored = list(i_h.coords)
+                    pres = K.presented(i_h)
+                    known = all(0 <= p < len(pres) and pres[p] == c for c, p in got)
+                    self.V("C16", "C16.position" + (".position-skips-explicit-defaults" if known else ""), "conv",
+                           f"project trace under r={r}: (coordinate, position) {got}, the source fiber stores {stored}")
+        fkey = ("convfiles", repr(a["w"]), repr(a["i"]), W, I)
+        ref = self.sweep.get(fkey)
+        if ref is None:
+            self.sweep[fkey] = files
+        elif ref != files:
+            bad = [n for n in sorted(set(ref) | set(files)) if ref.get(n) != files.get(n)]
+            self.V("C16", "C16.flush-independent", "conv", f"trace {bad[0]} of the convolution differs between flush thresholds")
+        self.probe("projection_sessions")
+        if rows:
+            self.probe("trace_rows:project_", len(rows))
+        return {"bodies": bodies}
 
     # ---- C19
     def _isect_setup(self, s, flow):
